@@ -109,7 +109,7 @@ class C15(Prop):
     clauses = ['truthful', 'timely', 'timeout', 'justified', 'no_exception']
     corr_name = ('Wait.Model(task_wait/pilot_wait/wait_tasks/wait_pilots) vs Task.wait/Pilot.wait/'
                  'TaskManager.wait_tasks/PilotManager.wait_pilots under a virtual clock')
-    rule = ('corpus; exhaustive: requested sets (none/empty/one/several) x trajectories of length <= 2 (quick, plus a sample of length 3) or '
+    rule = ('corpus; exhaustive: requested sets (none/empty/one/several) x trajectories of length <= 3 (quick) or '
             '<= 4 (thorough) over 6 representative states x timeouts {None,0,1,3} for Task.wait and Pilot.wait, and '
             'pairs of trajectories of length <= 2 x 3 requests x 3 uid forms for the manager calls; random '
             'mostly-monotone trajectories (stalls, gaps, wrong final state, never-final) for all four calls with '
@@ -181,13 +181,13 @@ class C15(Prop):
         # exhaustive small scope for the single-entity calls
         R = {'T': ['NEW', 'AGENT_EXECUTING', 'TMGR_STAGING_OUTPUT', 'DONE', 'FAILED', 'CANCELED'],
              'P': ['NEW', 'PMGR_LAUNCHING', 'PMGR_ACTIVE', 'DONE', 'FAILED', 'CANCELED']}
-        maxlen = 2 if tier == 'quick' else 4
+        maxlen = 3 if tier == 'quick' else 4
         for fn, kind in (('task_wait', 'T'), ('pilot_wait', 'P')):
             reqs = [None, [], R[kind][1], 'DONE', 'FAILED', ['DONE'], [R[kind][2], 'CANCELED'], TFINAL]
             for n in range(1, maxlen + 1):
                 for tr in itertools.product(R[kind], repeat=n):
                     for req in reqs:
-                        for to in [None, 0, 1, 3]:
+                        for to in ([None, 0, 1, 3] if (n <= 2 or tier != 'quick') else [None, 2]):
                             yield dict(fn=fn, traj=list(tr), req=req, timeout=to, term=None, t0=1000)
         # exhaustive small scope for the manager calls: 2 entities, short trajectories
         for fn, kind in (('wait_tasks', 'T'), ('wait_pilots', 'P')):
@@ -201,14 +201,6 @@ class C15(Prop):
                         for uids in (None, 1, [2, 1]):
                             yield dict(fn=fn, ents=[[1, a], [2, b]], uids=uids, req=req,
                                        timeout=None, term=None, t0=1000)
-        if tier == 'quick':
-            # a seed-determined sample of the length-3 trajectories
-            for fn, kind in (('task_wait', 'T'), ('pilot_wait', 'P')):
-                for _ in range(250):
-                    yield dict(fn=fn, traj=[rng.choice(R[kind]) for _ in range(3)],
-                               req=rng.choice([None, [], R[kind][1], 'DONE', 'FAILED', ['DONE'],
-                                               [R[kind][2], 'CANCELED'], TFINAL]),
-                               timeout=rng.choice([None, 0, 1, 3]), term=None, t0=1000)
         n = 900 if tier == 'quick' else 12000
         for _ in range(n):
             fn = rng.choice(FNS)
